@@ -158,6 +158,8 @@ type Gen struct {
 	calleeUse map[*CalleeSpec]int
 	assertUse map[*Clause]int
 	setAtUse  map[*SetClause]int
+	fuzzy       map[string]string // anchor -> source line matched approximately
+	anchorNotes []string
 	freeVarNames map[string]bool
 	inputCache []inputTerm
 	unroll    int // > 0: concretisation mode (bounded unrolling instead of loop cutting)
@@ -311,6 +313,7 @@ func (g *Gen) run() (err error) {
 	}()
 	g.findLoops()
 	g.findEscaping()
+	g.resolveAnchors()
 	if g.unroll > 0 {
 		g.discovery = false
 		g.reset()
@@ -577,8 +580,14 @@ func (g *Gen) execAll() {
 	}
 	for _, fv := range fn.FreeVars {
 		v, inv := g.freshVal(fv.Type(), "fv_"+fv.Name())
-		g.regs[fv] = v
 		// a free variable is a pointer to the captured variable
+		if pv, ok := v.(PtrV); ok && pv.Cell == nil && isScalarType(pv.Elem) && onlyLoadStore(fv) {
+			// a variable's own cell is never an element of a slice or a field of a struct: when the closure only
+			// reads and writes it, it lives in a heap component of its own (no aliasing with []T elements)
+			pv.RootKey = "cell:" + pv.RootKey
+			v = pv
+		}
+		g.regs[fv] = v
 		g.paramVals[fv.Name()] = v
 		g.freeVarNames[fv.Name()] = true
 		g.assume(st, inv)
@@ -1538,4 +1547,28 @@ func (g *Gen) entryParam(i int) Val {
 		return v
 	}
 	return g.paramVals[p.Name()]
+}
+
+// onlyLoadStore: every use of the captured-variable pointer is a direct load or a store through it.
+func onlyLoadStore(fv *ssa.FreeVar) bool {
+	refs := fv.Referrers()
+	if refs == nil {
+		return false
+	}
+	for _, r := range *refs {
+		switch x := r.(type) {
+		case *ssa.UnOp:
+			if x.Op != token.MUL {
+				return false
+			}
+		case *ssa.Store:
+			if x.Addr != ssa.Value(fv) || x.Val == ssa.Value(fv) {
+				return false
+			}
+		case *ssa.DebugRef:
+		default:
+			return false
+		}
+	}
+	return true
 }
